@@ -11,6 +11,91 @@ use std::sync::OnceLock;
 
 pub struct C06;
 
+/// Closures that outlive the *run* that created them. One program, run twice on one VM without a
+/// clear; a host function `phase` tells it which run it is in. Run 1 (`first`) stores a closure over
+/// a local in a global and ends normally, through Abort or with an error, at call depth 1-3 behind
+/// 0-2 other locals; run 2 (`second`) has other locals where those were and calls the stored closure
+/// twice. The closure owns its variable: expected values are known by construction.
+fn cross_run_cases() -> Vec<(String, cvx_core::ir::Module, Vec<(&'static str, i64)>)> {
+    use cvx_core::ir::*;
+    let add = |a: C, c: C| bin(BinOp::Add, a, c);
+    let reader = C::Closure(vec![], vec![C::Return(b(rv("x")))]);
+    let bumper = C::Closure(vec![], vec![sv("x", add(rv("x"), int(1))), C::Return(b(rv("x")))]);
+    let mut v = Vec::new();
+    for (cname, clo, first, second) in [("read", reader, 7i64, 7i64), ("bump", bumper, 8, 9)] {
+        for ending in ["end", "abort", "error"] {
+            let tail: Vec<C> = match ending {
+                "end" => vec![],
+                "abort" => vec![C::Abort],
+                _ => vec![sg("_sink", C::GetProperty(b(int(1)), b(int(2))))],
+            };
+            for depth in 1..4usize {
+                for pad in 0..3usize {
+                    let mut body: Vec<C> = (0..pad).map(|k| sv(&format!("p{k}"), int(50 + k as i64))).collect();
+                    body.push(sv("x", int(7)));
+                    body.push(sg("cl", clo.clone()));
+                    body.extend(tail.clone());
+                    let second_fn = func(&[], vec![sv("a", int(100)), sv("bb", int(200)), sv("c", int(300)), sv("d", int(400)), sg("r1", C::DynCall(b(rv("cl")), vec![])), sg("r2", C::DynCall(b(rv("cl")), vec![])), sg("a_after", rv("a")), sg("d_after", rv("d"))]);
+                    let main = func(&[], vec![C::IfElse(b(native("phase", vec![])), b(sg("_sink", call("second", vec![]))), b(sg("_sink", call("first", vec![]))))]);
+                    let mut fns = vec![("main", main), ("second", second_fn)];
+                    match depth {
+                        1 => fns.push(("first", func(&[], body))),
+                        2 => {
+                            fns.push(("first", func(&[], vec![sv("l", int(2)), sg("_sink", call("inner", vec![]))])));
+                            fns.push(("inner", func(&[], body)));
+                        }
+                        _ => {
+                            fns.push(("first", func(&[], vec![sv("l", int(2)), sg("_sink", call("mid", vec![int(3)]))])));
+                            fns.push(("mid", func(&["q"], vec![sv("m", int(4)), sg("_sink", call("inner", vec![]))])));
+                            fns.push(("inner", func(&[], body)));
+                        }
+                    }
+                    v.push((format!("{cname}/{ending}/depth{depth}/pad{pad}"), module(fns), vec![("r1", first), ("r2", second), ("a_after", 100), ("d_after", 400)]));
+                }
+            }
+        }
+    }
+    v
+}
+
+fn n_phase(vm: &mut cao_lang::prelude::Vm<crate::realrun::Host>) -> Result<cao_lang::prelude::Value, cao_lang::prelude::ExecutionErrorPayload> {
+    // the harness marks the second run by leaving one note in the host's own check list
+    Ok(cao_lang::prelude::Value::Integer(vm.auxiliary_data.checks.len() as i64))
+}
+
+fn cross_run(idx: usize) -> Option<(String, String)> {
+    use crate::realrun::{self, CompileOutcome, RunCfg};
+    use cvx_core::refsem::{self, Ob};
+    let cases = cross_run_cases();
+    let (name, m, want) = &cases[idx];
+    let natives = refsem::default_natives();
+    let p = match realrun::compile_real(m) {
+        (CompileOutcome::Ok, Some(p)) => p,
+        _ => cvx_core::engine::machinery_error(&format!("C06 cross-run case {name} does not compile")),
+    };
+    let mut vm = realrun::new_vm(m, &natives, &RunCfg::default());
+    if vm.register_native_function("phase", n_phase as fn(&mut cao_lang::prelude::Vm<realrun::Host>) -> Result<cao_lang::prelude::Value, cao_lang::prelude::ExecutionErrorPayload>).is_err() {
+        cvx_core::engine::machinery_error("cannot register the phase native");
+    }
+    let _ = vm.run(&p);
+    vm.auxiliary_data.log.clear();
+    vm.auxiliary_data.checks.push("second run".into());
+    let r = vm.run(&p);
+    vm.auxiliary_data.checks.clear();
+    let o = realrun::observe_run(&vm, &p, &m.mentioned_names(), &r);
+    let kind = name.split('/').take(2).collect::<Vec<_>>().join("/");
+    if o.result != "Ok" {
+        return Some((format!("cross-run:{kind}:result"), format!("{name}: the second run, which calls the closure the first run stored in a global, ends with {}", o.result)));
+    }
+    for (g, w) in want {
+        let got = o.globals.get(*g).map(|x: &Ob| x.short()).unwrap_or_else(|| "<unset>".into());
+        if got != w.to_string() {
+            return Some((format!("cross-run:{kind}:{g}"), format!("{name}: after the second run global {g} is {got}, expected {w} (the closure stored by the first run owns its variable x = 7; the second run's locals a..d are its own)")));
+        }
+    }
+    None
+}
+
 static FAMS: OnceLock<Vec<Box<dyn Family>>> = OnceLock::new();
 
 pub fn families(_tier: Tier) -> &'static Vec<Box<dyn Family>> {
@@ -26,7 +111,7 @@ impl Check for C06 {
     fn info(&self, tier: Tier) -> CheckInfo {
         let fams = families(tier);
         CheckInfo {
-            rule: "F-closure-args: closure literals as callee and as 1..3 arguments of one DynamicCall (immediately invoked closure), in main / in a callee, arguments with / without an inner closure. F-closure-twin: closure expressions at the same card position of 2 or 3 different functions (same module, root and submodule, sibling modules, module and its child, main and a callee; card position 0 / 1; with / without an inner closure; both call orders), each returning its own tag. F-closure-order: two sibling closures of one callee, each referencing every ordered selection of three locals (open upvalues created in every slot order), called in scope, then after the callee returned and its stack area was reused. F-closure-nest: middle closure referencing an ordered selection of {a,b} x inner closure referencing every ordered selection of {a,b,m} (read-sum / write) x main / callee / one more closure level, so that local captures and captures of parent upvalues have differing, overlapping index ranges. F-closure: creation context (main; callee with 0 / 2 arguments and 0 / 2 caller locals; callee at call depth 2; Repeat iteration; ForEach iteration; another closure; callee invoked from a loop) x captured variable (earlier local, parameter, later-declared local, loop variable, variable of the grand-parent, name shadowed by a loop variable) x body action (read, write, read-write, create-and-return an inner closure) x sibling closure sharing the variable x export (global, table field, passed to a function that calls it) x unused-value statement between creation and scope end x root module vs. submodule next to a decoy module with a closure at the same card position. Every closure is called twice inside its scope, twice after the scope ended, once per loop iteration afterwards. Oracle: reference interpreter with by-reference capture (cells), observation = host-call log + globals. 'states' = distinct reference outcomes per chunk".into(),
+            rule: "F-closure-args: closure literals as callee and as 1..3 arguments of one DynamicCall (immediately invoked closure), in main / in a callee, arguments with / without an inner closure. F-closure-twin: closure expressions at the same card position of 2 or 3 different functions (same module, root and submodule, sibling modules, module and its child, main and a callee; card position 0 / 1; with / without an inner closure; both call orders), each returning its own tag. F-closure-order: two sibling closures of one callee, each referencing every ordered selection of three locals (open upvalues created in every slot order), called in scope, then after the callee returned and its stack area was reused. F-closure-nest: middle closure referencing an ordered selection of {a,b} x inner closure referencing every ordered selection of {a,b,m} (read-sum / write) x main / callee / one more closure level, so that local captures and captures of parent upvalues have differing, overlapping index ranges. F-closure: creation context (main; callee with 0 / 2 arguments and 0 / 2 caller locals; callee at call depth 2; Repeat iteration; ForEach iteration; another closure; callee invoked from a loop) x captured variable (earlier local, parameter, later-declared local, loop variable, variable of the grand-parent, name shadowed by a loop variable) x body action (read, write, read-write, create-and-return an inner closure) x sibling closure sharing the variable x export (global, table field, passed to a function that calls it) x unused-value statement between creation and scope end x root module vs. submodule next to a decoy module with a closure at the same card position. F-cross-run: a closure over a local (reader / incrementing) stored in a global by a first run that ends normally, through Abort or with an error, at call depth 0-2 behind 0-2 other locals, called twice by a second run on the same VM whose own locals occupy the same stack slots (54 two-run cases, expected values by construction). Every closure is called twice inside its scope, twice after the scope ended, once per loop iteration afterwards. Oracle: reference interpreter with by-reference capture (cells), observation = host-call log + globals. 'states' = distinct reference outcomes per chunk".into(),
             bound: format!("families {:?}, {} programs", fams.iter().map(|f| format!("{}={}", f.name(), f.len())).collect::<Vec<_>>(), progcheck::total_cases(fams)),
             exhaustive: true,
             assumptions: vec!["closure nesting depth <= 2 in this family (depth up to 9 is compiled and run under C04)".into()],
@@ -34,15 +119,34 @@ impl Check for C06 {
         }
     }
     fn units(&self, tier: Tier) -> u64 {
-        progcheck::units_of(families(tier))
+        progcheck::units_of(families(tier)) + 1
     }
     fn unit_timeout_s(&self, _tier: Tier) -> u64 {
         60
     }
     fn run_unit(&self, tier: Tier, unit: u64, out: &mut ChunkResult) {
+        if unit == progcheck::units_of(families(tier)) {
+            for i in 0..cross_run_cases().len() {
+                out.evaluations += 1;
+                out.traces += 1;
+                out.transitions += 2;
+                match cross_run(i) {
+                    None => {
+                        out.states += 1;
+                        out.nontrivial += 1;
+                        out.outcome("cross-run ok".to_string());
+                    }
+                    Some((k, w)) => out.violation(Violation::new("C06", k, w, serde_json::json!({"kind": "cross-run", "index": i}))),
+                }
+            }
+            return;
+        }
         progcheck::run_unit(&JUDGE, families(tier), tier, unit, out)
     }
     fn replay(&self, case: &J) -> Option<Violation> {
+        if case["kind"].as_str() == Some("cross-run") {
+            return cross_run(case["index"].as_u64()? as usize).map(|(k, w)| Violation::new("C06", k, w, case.clone()));
+        }
         progcheck::replay(&JUDGE, case)
     }
 }
